@@ -55,5 +55,5 @@ def run(check, ctx):
     c_mont.mont_tables(check, ctx, with_inverse=(ctx.tier == "thorough"))
     from . import c_modexp
     c_modexp.modexp_tables(check, ctx)
-    check.undecided.append("exactness of any GMP / C Montgomery result; that Miller-Rabin and Lucas as coded are the "
-                           "mathematical tests; the error bound of the Miller-Rabin schedule")
+    check.undecided.append("exactness of libgmp; C Montgomery results outside the operand tables; primality verdicts beyond the candidate "
+                           "tables; the error bound of the Miller-Rabin schedule")
